@@ -89,7 +89,7 @@ func OutDir(t *testing.T) string {
 	return d
 }
 
-func Thorough() bool { return os.Getenv("VERIF_TIER") == "Thorough" }
+func Thorough() bool { return strings.EqualFold(os.Getenv("VERIF_TIER"), "thorough") }
 
 // ---------------------------------------------------------------- Coq term emitters
 
